@@ -28,7 +28,7 @@ Lemma only_eof_bind {A B} (o : outcome A) (f : A -> outcome B) :
 Proof. intros Ho Hf. destruct o; cbn [bind only_eof] in *; auto. Qed.
 
 Lemma only_eof_no_panic {A} (o : outcome A) : only_eof o -> no_panic o.
-Proof. destruct o as [a|e| |]; cbn; auto. Qed.
+Proof. destruct o as [a|e| |]; cbn [only_eof no_panic]; auto. Qed.
 
 (* r is what remains of s after a read *)
 Definition sfx (r s : stream) : Prop := exists p, s = p ++ r.
@@ -256,7 +256,7 @@ Corollary end_pts_rejects_overflow : forall counts encs rest,
   compute_end_pts (concat encs ++ rest) (len counts) = Err BadValue.
 Proof.
   intros counts encs rest H Hs.
-  assert (counts <> []) as Hne by (intros ->; cbn in Hs; lia).
+  assert (counts <> []) as Hne by (intros ->; cbn [sum fold_right] in Hs; lia).
   rewrite (compute_end_pts_exact counts encs rest Hne H).
   replace (sum counts <=? 65535) with false by lia. rewrite andb_false_r. reflexivity.
 Qed.
@@ -515,8 +515,6 @@ Lemma read_composite_glyphs_total : forall s,
 Proof. intros s. unfold read_composite_glyphs. apply read_components_total. lia. Qed.
 
 (* ------------------------------------------------------------------ one glyph, all glyphs *)
-Ltac err_case e := split; [destruct e; try contradiction; exact I|discriminate].
-
 Lemma bbox_from_points_nonempty : forall pts, pts <> [] -> exists bb, bbox_from_points pts = Ok bb.
 Proof. intros [|p pts] H; [congruence|]. eexists. reflexivity. Qed.
 
